@@ -28,7 +28,7 @@ MC = {
 }
 
 
-MODEL_MUTANTS = ["BugPtr", "BugWait", "BugListen", "ackstale", "ackany", "clearstale", "sendstale", "noclearattach", "bumpnoncur", "wantleak"]
+MODEL_MUTANTS = ["BugPtr", "BugWait", "BugListen", "ackstale", "ackany", "clearstale", "sendstale", "noclearattach", "bumpnoncur", "wantleak", "listensize", "lexitnonce"]
 
 
 def directed(ctx):
